@@ -37,7 +37,7 @@ m = {
                  "kind_free_text": "symbolic execution of the real pfhedge/torch code on SymTensor (torch.Tensor wrapper subclass carrying solver terms), path exploration by replay, special functions Ackermannised with instantiated axioms, z3 decides each obligation, counterexamples replayed on real float64 torch"}],
     "checks": checks,
     "not_applicable": na,
-    "notes": "exit codes: 0 held on everything explored; 1 VIOLATION (replayed on the real code); 3 harness error / spurious / unsupported op / incomplete exploration. See DESIGN.md.",
+    "notes": "exit codes: 0 held on everything explored (obligations without a verdict -- solver timeout, a model of the abstraction that does not replay on the real code, wall-clock budget -- are printed as UNDECIDED lines and counted in the evidence); 1 VIOLATION (replayed on the real code) not listed in known_findings.json; 3 harness error (exception in harness/engine code, torch operation without a handler, exploration bound, conformance failure, solver disagreement, a negative control that was proved). tools/regress_seeds.sh and tools/regress_refactors.sh replay the filed seeded changes (must be caught) and behaviour-preserving refactorings (must stay quiet) in scratch worktrees. See DESIGN.md sections 0 and 2.10.",
 }
 json.dump(m, open(os.path.join(ROOT, "MANIFEST.json"), "w"), indent=1)
 print("claimed:", sorted(CLAIMED), "not claimed:", [x["property_id"] for x in na])
